@@ -193,6 +193,7 @@ def seeded_case(flow, cfg, R, n, seed, gen, pm):
             direct = flow.log_prob(samples) if samples.shape == x.shape else None
             if direct is None or not close(lp, direct, 1e-6):
                 bad.append(('returned log_prob != log_prob(samples)', 'values'))
+            bad += batched_case(flow, n, None, seed, 0)
             return bad
         c = torch.randn(R, cfg.ctxw, generator=gen) * 0.7
         torch.manual_seed(seed)
@@ -221,6 +222,26 @@ def seeded_case(flow, cfg, R, n, seed, gen, pm):
         direct = flow.log_prob(samples.reshape(R * n, *ev), context=c.repeat_interleave(n, 0))
         if not close(lp.reshape(-1), direct, 1e-6):
             bad.append(('returned log_prob[i,j] != log_prob(samples[i,j], context[i])', float((lp.reshape(-1) - direct).abs().max())))
+        bad += batched_case(flow, n, c, seed, 1)
+    return bad
+
+
+def batched_case(flow, n, c, seed, dim):
+    """sample(n, context, batch_size=b): draw k of context row i is draw (k mod b) of batch (k div b) FOR THAT ROW — the batches,
+    drawn one after the other with the same generator state, concatenated along the draw dimension"""
+    bad = []
+    for b in sorted({2, n - 1} - {0, -1}):
+        if b >= n:
+            continue
+        torch.manual_seed(seed)
+        got = flow.sample(n, context=c, batch_size=b)
+        torch.manual_seed(seed)
+        nb, left = divmod(n, b)
+        parts = [flow.sample(k, context=c) for k in [b] * nb + ([left] if left else [])]
+        want = torch.cat(parts, dim=dim)
+        if got.shape != want.shape or not close(got, want):
+            bad.append(('sample(n, context, batch_size=%d) is not its batches concatenated along the draw dimension' % b,
+                        float((got - want).abs().max()) if got.shape == want.shape else 'shape'))
     return bad
 
 
@@ -311,7 +332,7 @@ def direct_case(obj, cfg, R, n, seed, gen):
     return None
 
 
-def block_case(obj, cfg, gen, seed):
+def block_case(obj, cfg, gen, seed, batch_size=None):
     """sample(n, context): block i must come from the density conditioned on context row i — the average log-density of
     block i under its own context row must beat the one under any other (well separated) context row"""
     if cfg.needs_ctx is False and not cfg.ctx_dependent:
@@ -320,7 +341,7 @@ def block_case(obj, cfg, gen, seed):
     with torch.no_grad():
         c = torch.randn(R, cfg.ctxw, generator=gen) * 1.5
         torch.manual_seed(seed)
-        s = obj.sample(n, context=c)
+        s = obj.sample(n, context=c) if batch_size is None else obj.sample(n, context=c, batch_size=batch_size)
         if list(s.shape) != [R, n] + cfg.event:
             return ('sample returned shape %s' % list(s.shape), None)
         score = torch.zeros(R, R)
@@ -399,6 +420,14 @@ def search(ctx):
                     r = ('raised %s: %s' % (DF.err_kind(e), str(e)[:120]), None)
                 if r is not None:
                     ctx.fail(r[0], case, detail={'excess': r[1]}, match={'class': cfg.name.split('[')[0], 'symptom': 'block-density'})
+                else:
+                    case = {'cfg': cfg.name, 'seed': ctx.seed, 'oracle': 'block', 'batch_size': 100}
+                    try:
+                        r = block_case(obj, cfg, gen, ctx.seed, batch_size=100)
+                    except Exception as e:
+                        r = ('raised %s: %s' % (DF.err_kind(e), str(e)[:120]), None)
+                    if r is not None:
+                        ctx.fail('with batch_size=100: ' + r[0], case, detail={'excess': r[1]}, match={'class': cfg.name.split('[')[0], 'symptom': 'block-density-batched'})
             if len(ctx.failing) >= 8:
                 break
         if ctx.tier == 'thorough':
@@ -423,7 +452,7 @@ def replay(ctx, payload):
                 if case.get('oracle') == 'direct':
                     return direct_case(obj, cfg, case['R'], case['n'], case['seed'], gen) is not None
                 if case.get('oracle') == 'block':
-                    return block_case(obj, cfg, gen, case['seed']) is not None
+                    return block_case(obj, cfg, gen, case['seed'], batch_size=case.get('batch_size')) is not None
                 if case.get('oracle') == 'ks':
                     return ks_case(obj, cfg, gen, case['seed']) is not None
             except Exception:
